@@ -29,7 +29,7 @@ MUTATIONS = [
     "kw_changed", "kw_added", "kw_removed", "literal_lookalike", "prop_required", "prop_source", "prop_key",
     "class_swapped", "sub_replaced", "elements_reordered", "prop_removed",
 ]
-REQUIRED_COUNTERS = ["pairs.rebuild", "pairs.mutant", "equal.true", "equal.false", "equal_pairs.values_compared",
+REQUIRED_COUNTERS = ["pairs.rebuild", "pairs.rebuild_one_used", "pairs.mutant", "equal.true", "equal.false", "equal_pairs.values_compared",
                      "equal_pairs.json_compared", "reflexive", "symmetric"] + [f"mut.{m}" for m in MUTATIONS]
 
 
@@ -320,6 +320,18 @@ def run_shard(ctx):
             ctx.count("build_failed." + type(exc).__name__)
             continue
         ctx.count("pairs.rebuild")
+        if idx % 2:
+            # one copy has been used (validated against, serialized, printed), the other is fresh: they
+            # are still independently built copies of the same schema
+            ctx.count("pairs.rebuild_one_used")
+            schema = gen_dsl.to_schema(spec)
+            for value in (gv.batch_for_schema(rng, schema, schema, count=5) if isinstance(schema, dict) else [1, "a"]):
+                sut.call(left, value)
+            for observe in (repr, sut.serialize_json, sut.serialize_python):
+                try:
+                    observe(left)
+                except Exception:  # pylint: disable=broad-except
+                    pass
         judge_pair(ctx, sut, left, twin, spec, spec, "rebuild", [], ctx.params["values"])
         if gen_dsl.count_nodes(spec) >= 2:
             ctx.nontrivial(canon([spec, "rebuild"]))
